@@ -108,12 +108,13 @@ def lname(layer):
 # ---------------------------------------------------------------- tests
 
 (PASS, FAIL, ERROR, SKIP_BODY, SKIP_DECO, XFAIL, ERR_TD, SUBFAIL2, SKIP_SETUP, XPASS,
- CLEANUP_ERR, SYSEXIT, SETUP_ERR, TD_ERR, SUB_ERR) = range(15)
+ CLEANUP_ERR, SYSEXIT, SETUP_ERR, TD_ERR, SUB_ERR, SUBPASS_PASS, SUBPASS_FAIL) = range(17)
 KIND_NAMES = ['pass', 'fail', 'error', 'skip-in-body', 'skip-decorator', 'expected-failure',
               'body-error+tearDown-error', 'two-failing-subtests', 'skip-in-setUp', 'unexpected-success',
-              'cleanup-error', 'SystemExit-in-body', 'setUp-error', 'tearDown-error', 'subtest-error+pass']
+              'cleanup-error', 'SystemExit-in-body', 'setUp-error', 'tearDown-error', 'subtest-error+pass',
+              'passing-subtest-then-pass', 'passing-subtest-then-fail']
 # number of failure / error / skip result events each kind produces
-N_FAIL = {FAIL: 1, SUBFAIL2: 2}
+N_FAIL = {FAIL: 1, SUBFAIL2: 2, SUBPASS_FAIL: 1}
 N_ERR = {ERROR: 1, ERR_TD: 2, CLEANUP_ERR: 1, SYSEXIT: 1, SETUP_ERR: 1, TD_ERR: 1, SUB_ERR: 1}
 N_SKIP = {SKIP_BODY: 1, SKIP_DECO: 1, SKIP_SETUP: 1}
 BAD = set(N_FAIL) | set(N_ERR) | {XPASS}
@@ -123,7 +124,7 @@ def is_bad(kind):
     return kind in BAD
 
 
-def mk_test(name, kind, layer=None, level=None, exc=0, out=None, count=None, body=None):
+def mk_test(name, kind, layer=None, level=None, exc=0, out=None, count=None, body=None, late=None):
     """A unittest.TestCase with one runTest whose outcome is `kind`.
     out: optional callable(name) run at the start of setUp (writes tokens).
     """
@@ -171,6 +172,13 @@ def mk_test(name, kind, layer=None, level=None, exc=0, out=None, count=None, bod
                     raise E('suberr')
                 with self.subTest(i=2):
                     pass
+            elif kind in (SUBPASS_PASS, SUBPASS_FAIL):
+                with self.subTest(i=1):
+                    pass
+                if late is not None:       # output written after a passing subtest
+                    late(name)
+                if kind == SUBPASS_FAIL:
+                    self.fail('failed after a passing subtest ' + name)
 
         def tearDown(self):
             ev('tearDown', name)
